@@ -162,6 +162,7 @@ try_run_calculator = Fn('src/core.rs', 'try_run_calculator', ret='r', props=('C1
 UNIT = Unit('U-CALC', TEMPLATE, fns=[nesting_depth, run_calculator, try_run_calculator, Fn('src/types.rs', 'new', impl='CommandResult'), Fn('src/types.rs', 'from_status', impl='CommandResult')],
             types=[TypeItem('src/types.rs', 'struct', 'CommandResult'), TypeItem('src/tools.rs', 'const', 'MAX_NESTING')], raw={'primary_num': gen_primary}, props=('C19', 'C05'))
 TRUSTED = common.TRUSTED_STR + [
+    'the machine stack is treated as unbounded: termination (decreases) is proved for the recursive brace parser, the substitution pass and the callers of the calculator, their recursion DEPTH is not; it is bounded by tools::MAX_NESTING (<= 200 required; 1000 levels were measured to fit the 8 MB main stack of a debug build) through the gates need_expand_brace / should_do_dollar_command_extension / run_calculator, which are under contract',
     'str::parse::<i64> / parse::<f64>: std contracts (Ok iff a decimal in range); float->int `as` cast saturates (never panics)',
     'pest: calculator::calculate and the Pairs iterator are external; calc.next().unwrap() on a successful parse is trusted',
     'eval_float / eval_int are external here (their operator kernel is proved by Kani); Display for i64/f64 opaque',
